@@ -48,11 +48,12 @@ class Rule(whitespace.Rule):
                 self.analyze_no_whitespace_token(oToi)
 
     def analyze_no_whitespace_token(self, oToi):
-        if not self.number_of_spaces_is_an_integer() and self.number_of_spaces_is_lte() and self.number_of_spaces_is_lt():
+        if not self.number_of_spaces_is_an_integer() and self.number_of_spaces_is_lt():
             return
         elif self.number_of_spaces != 0:
             iSpaces = self.extract_expected_number_of_spaces()
-            self.create_violation(oToi, iSpaces)
+            if iSpaces > 0:
+                self.create_violation(oToi, iSpaces)
 
     def extract_expected_number_of_spaces(self):
         if self.number_of_spaces_is_an_integer():
@@ -158,7 +159,7 @@ class Rule(whitespace.Rule):
     def _fix_violation(self, oViolation):
         lTokens = oViolation.get_tokens()
         dAction = oViolation.get_action()
-        if self.number_of_spaces == 0:
+        if dAction["spaces"] == 0:
             lTokens = [lTokens[0], lTokens[2]]
         else:
             if isinstance(lTokens[1], parser.whitespace):
